@@ -437,12 +437,9 @@ func (e *Engine) findIndicesAdaptiveAtWithState(haystack []byte, at int, state *
 		atomic.AddUint64(&e.stats.DFASearches, 1)
 		endPos := e.dfa.FindAt(state.dfaCache, haystack, at)
 		if endPos != -1 {
-			// Use estimated start for O(m) search
-			estimatedStart := at
-			if endPos > at+100 {
-				estimatedStart = endPos - 100
-			}
-			return state.pikevm.SearchAt(haystack, estimatedStart)
+			// The DFA confirmed a match; its span comes from the NFA searched from 'at':
+			// the match can be longer than any fixed window before its end.
+			return state.pikevm.SearchAt(haystack, at)
 		}
 		size, capacity, _, _, _ := e.dfa.CacheStats(state.dfaCache)
 		if size >= int(capacity)*9/10 {
@@ -495,12 +492,9 @@ func (e *Engine) findIndicesAdaptive(haystack []byte) (int, int, bool) {
 		endPos := e.dfa.Find(state.dfaCache, haystack)
 		if endPos != -1 {
 			e.putSearchState(state)
-			// Use estimated start position for O(m) search instead of O(n)
-			estimatedStart := 0
-			if endPos > 100 {
-				estimatedStart = endPos - 100
-			}
-			return e.pvSearchAt(haystack, estimatedStart)
+			// The DFA confirmed a match; its span comes from the NFA searched from the
+			// start: the match can be longer than any fixed window before its end.
+			return e.pvSearchAt(haystack, 0)
 		}
 		size, capacity, _, _, _ := e.dfa.CacheStats(state.dfaCache)
 		e.putSearchState(state)
@@ -541,12 +535,9 @@ func (e *Engine) findIndicesAdaptiveAt(haystack []byte, at int) (int, int, bool)
 		endPos := e.dfa.FindAt(state.dfaCache, haystack, at)
 		if endPos != -1 {
 			e.putSearchState(state)
-			// Use estimated start for O(m) search
-			estimatedStart := at
-			if endPos > at+100 {
-				estimatedStart = endPos - 100
-			}
-			return e.pvSearchAt(haystack, estimatedStart)
+			// The DFA confirmed a match; its span comes from the NFA searched from 'at':
+			// the match can be longer than any fixed window before its end.
+			return e.pvSearchAt(haystack, at)
 		}
 		size, capacity, _, _, _ := e.dfa.CacheStats(state.dfaCache)
 		e.putSearchState(state)
